@@ -655,10 +655,19 @@ func (g *G) show(v *Var) {
 		for _, f := range sd.Fields {
 			if f.T.printable() {
 				parts = append(parts, v.Name+"."+f.Name)
+			} else if f.T.K == "ptr" && v.MinLen > 0 && rapid.Bool().Draw(g.rt, "nilfield") {
+				// reference fields are nil until something is stored: compared with nil on either side
+				g.meta.feat("nilfirst")
+				parts = append(parts, "nil == "+v.Name+"."+f.Name, v.Name+"."+f.Name+" != nil")
 			}
 		}
 		if len(parts) == 0 || v.MinLen == 0 {
-			g.line("fmt.Println(\"t%d\", %s == nil)", g.id, v.Name)
+			if rapid.Bool().Draw(g.rt, "nilfirst") {
+				g.meta.feat("nilfirst")
+				g.line("fmt.Println(\"t%d\", nil == %s, nil != %s)", g.id, v.Name, v.Name)
+			} else {
+				g.line("fmt.Println(\"t%d\", %s == nil)", g.id, v.Name)
+			}
 		} else {
 			g.line("fmt.Println(\"t%d\", %s)", g.id, strings.Join(parts, ", "))
 		}
